@@ -38,6 +38,10 @@ fn main() {
                 points.push(vec![*v, *s, *m, *e, 0, 0, *l, 0]);
             }}}}}
         }
+        // sectors of 512 KiB (shift 10): an encrypted unit longer than 64 Ki dwords, one key stream through all of it
+        for v in [1u32, 2] { for m in [0u32, 0x02] { for e in [1u32, 2] {
+            points.push(vec![v, 10, m, e, 0, 0, 1, 0]);
+        }}}
         for (i, p) in points.iter().enumerate() {
             let idx = i as u64;
             if !run.want(idx) {
@@ -62,6 +66,19 @@ fn main() {
                     files.push(FileSpec { name: format!("breakeven\\tail{k}.bin"), class: "break-even", data: big });
                 }
                 files.push(FileSpec { name: format!("breakeven\\whole{k}.bin"), class: "break-even", data: d });
+            }
+            if cfg.shift >= 10 {
+                let n = 270_000 + rng.usize(200_000);
+                let mut data = rng.bytes(n);
+                files.push(FileSpec { name: format!("big\\unit{idx}.bin"), class: "random", data: data.clone() });
+                // and one that compresses a little (text with random stretches): stored compressed, still longer than 256 KiB
+                let t = vh_common::gen_content(&mut rng, "text", n);
+                for (k, b) in data.iter_mut().enumerate() {
+                    if (k / 4096) % 8 == 0 {
+                        *b = t[k];
+                    }
+                }
+                files.push(FileSpec { name: format!("big\\mixed{idx}.bin"), class: "random", data });
             }
             // a file without any directory component (key derivation from the plain name)
             files.push(FileSpec { name: format!("plain{idx}.txt"), class: "text", data: vh_common::gen_content(&mut rng, "text", 700) });
